@@ -50,6 +50,8 @@ def collect(tier, seed):
             for p in ps:
                 if tier == 'quick' and len(p) > 5000 and lv not in (levels[0], levels[-1]):
                     continue
+                if len(p) > 100000 and lv not in (levels[0], levels[len(levels) // 2], levels[-1]):
+                    continue            # the slow levels of xz / zstandard / bzip2 on large payloads: three levels per codec
                 cid = 'c%d' % k; k += 1
                 lines.append('%s (codec %s %d %s)' % (cid, codec, lv, hx(p)))
                 meta[cid] = ('rt', codec, lv, p)
@@ -90,7 +92,8 @@ def collect(tier, seed):
             cid = 'c%d' % k; k += 1
             lines.append('%s (codec-d %s %s)' % (cid, codec, hx(rng.bytes(rng.below(64)))))
             meta[cid] = ('random', codec, 0, b'')
-    out = fw.run_lines(exe, lines)
+    # thorough: the slow compression levels on megabyte payloads need minutes per shard (a shard that times out is re-run case by case)
+    out = fw.run_lines(exe, lines, timeout=300 if tier == 'quick' else 2400, case_timeout=10 if tier == 'quick' else 60)
     # bombs: 4 MiB of zeros compressed by the reference codecs, against a 64 KiB limit (own process: the limit is process-wide)
     blines, bmeta = [], {}
     big = b'\x00' * (4 << 20)
